@@ -11,7 +11,7 @@ from lib import common as C
 
 # property -> engine module (engines/<name>.py must define check(prop, tier, seed) -> Outcome)
 ENGINES = {
-    "C01": "run", "C02": ["run", "ops"], "C03": "run", "C04": "run", "C05": "run", "C07": "run",
+    "C01": ["run", "ops"], "C02": ["run", "ops"], "C03": "run", "C04": "run", "C05": "run", "C07": "run",
     "C08": "run", "C11": ["run", "ops"], "C23": ["run", "lemmas"], "C25": ["run", "ops"], "C30": "run", "C31": "run",
     "C06": "ops", "C09": ["ops", "lemmas"], "C10": "ops",
     "C12": "alloc", "C13": ["alloc", "run"], "C14": "alloc",
